@@ -3,7 +3,7 @@ Correspondence: Tag.decode / decode_contents / BeautifulSoup.decode / _event_str
 event streams), html.parser's reading of the rendered string vs Model.Reparse.read_tokens, the re-parsed tree vs
 Spec.RenderSpec.norm.  Direct oracle (Python, independent of the model): normalised structural comparison of the
 re-parse, second round trip, no empty-element tag with children, script/style text verbatim."""
-import json, os, warnings
+import json, os, re, warnings
 import rendergen as G
 from rendergen import Tag, NavigableString, BeautifulSoup
 
@@ -35,11 +35,23 @@ def known_declaration(f):
     return f.get("tag") == "declaration-class"
 
 
-KNOWN_MATCHERS = {"declaration_renders_as_pi": known_declaration}
+def known_doctype_newline(f):
+    return f.get("tag") == "doctype-newline"
+
+
+KNOWN_MATCHERS = {"declaration_renders_as_pi": known_declaration,
+                  "doctype_followed_by_text_gains_newline": known_doctype_newline}
 
 
 def replay_known(ctx, k):
     """Does the listed finding's witness still fail on the current tree?"""
+    if k.get("id") == "C05-doctype-newline-accumulates":
+        with warnings.catch_warnings():
+            warnings.simplefilter("ignore")
+            out1 = G.parse(k["witness"]["markup"]).decode()
+            out2 = G.parse(out1).decode()
+            out3 = G.parse(out2).decode()
+        return out3 != out2
     if k.get("id") == "C05-declaration-as-pi":
         with warnings.catch_warnings():
             warnings.simplefilter("ignore")
@@ -132,7 +144,7 @@ def check_tree(ctx, batch, origin, root, xml, parsed):
                       (G_to_str(r) != body) and ctx.disagree("rendering ~ spelled tokens (Model.Reparse.tokens / spell)", case, body, G_to_str(r)))
             py_rep = (not any(t.name in G.HTML_VOID and t.contents for t in G.tags_of(el))) if parsed else (G.representable(el, xml) is None)
             if py_rep:
-                token_level(ctx, batch, case, el, fe, dumped, body)
+                token_level(ctx, batch, case, el, fe, dumped, body, fname)
     if len(ctx.samples) < 4 and root.contents:
         ctx.sample({"origin": origin, "rendered_minimal": root.decode()[:300]})
 
@@ -141,7 +153,7 @@ XML_DECL = '<?xml version="1.0" encoding="utf-8"?>\n'
 CHECK = []
 
 
-def token_level(ctx, batch, case, el, fe, dumped, body):
+def token_level(ctx, batch, case, el, fe, dumped, body, fname):
     if not CHECK:
         CHECK.append(G.startend_checks_closed())
     chk = CHECK[0]
@@ -163,10 +175,14 @@ def token_level(ctx, batch, case, el, fe, dumped, body):
               (G.dec_model_flat(r) != flat) and
               ctx.disagree("re-parsed tree ~ spec_run (read_tokens (tokens t)) (conclusion of roundtrip_tokens, evaluated)", case,
                            flat[:12], G.dec_model_flat(r)[:12]))
-    batch.add([5010, fe, True, dumped], lambda r, flat=flat, case=case:
-              (G.dec_model_flat(r) != flat) and
-              ctx.disagree("re-parsed tree ~ norm (doc (norm t)) (a second round trip changes nothing, evaluated)", case,
-                           flat[:12], G.dec_model_flat(r)[:12]))
+    try:
+        flat2 = G.flat_impl(G.parse(back.decode(formatter=fname)))
+    except G.ParserRejectedMarkup:
+        flat2 = None
+    if flat2 is not None:
+        batch.add([5010, fe, True, dumped], lambda r, flat2=flat2, case=case:
+                  (G.dec_model_flat(r) != flat2) and
+                  ctx.disagree("tree after a second round trip ~ norm (doc (norm t))", case, flat2[:12], G.dec_model_flat(r)[:12]))
     # (only where the model has the substitution function itself or does not need it: a recorded graph does not
     #  cover the merged / whitespace-normalised texts of the re-parsed tree)
     if fe[0] == 1 or fe[3]:
@@ -236,10 +252,30 @@ def oracle(ctx, case, el, fname, out, xml, parsed):
     back2 = G.parse(out2)
     out3 = back2.decode(formatter=fname)
     if out3 != out2:
-        ctx.fail(case, "parse-then-render is not idempotent (text)", out3, out2)
+        ctx.fail(case, "parse-then-render is not idempotent (text)", out3, out2,
+                 tag="doctype-newline" if doctype_newline_only(back, out2, out3) else None)
     elif tuple(G.exact(c) for c in back2.contents) != tuple(G.exact(c) for c in back.contents):
         ctx.fail(case, "parse-then-render is not idempotent (tree)", [G.exact(c) for c in back2.contents],
                  [G.exact(c) for c in back.contents])
+
+
+_DT = re.compile(r"(<!DOCTYPE [^>]*>)\n+")
+
+
+def doctype_newline_only(back, out2, out3):
+    """Known finding C05-doctype-newline-accumulates, exactly: the re-parsed tree has a Doctype immediately followed by
+    a text node (NavigableString or a string container's class) that starts with a newline and is not a stable whitespace-only run (not whitespace-only,
+    or inside a whitespace-preserving element where nothing collapses), and the two renderings differ in nothing but
+    the number of newlines after doctypes."""
+    def unstable(d):
+        t = d.next_sibling
+        if t is None or isinstance(t, Tag) or G.CLASS_ID.get(type(t)) not in G.TEXT_CLASSES or not t.startswith("\n"):
+            return False
+        ws_only = all(c in G.ASCII_WS for c in t)
+        preserved = any(G.qname(a) in G.HTML_PW for a in d.parents if isinstance(a, Tag))
+        return (not ws_only) or preserved
+    has = any(isinstance(x, G.Doctype) and unstable(x) for x in G.all_elements(back))
+    return has and _DT.sub(r"\1\n", out2) == _DT.sub(r"\1\n", out3)
 
 
 def corpus_cases():
